@@ -173,7 +173,8 @@ struct Tables {
     /// 32-byte x candidates for compressed encodings
     xs: Vec<(String, [u8; 32])>,
     pk_len_tags: Vec<u8>,
-    sig: SighashSignature,
+    /// serialised SighashSignature (library objects are rebuilt per use, never shared between worker threads)
+    sig_bytes: Vec<u8>,
 }
 
 fn ordinary(tag: &[u8]) -> BigUint {
@@ -626,7 +627,7 @@ fn build(tier: Tier) -> Tables {
     let sig = guard(|| {
         let sk = PrivateKey::from_bytes(&keys[0].key32).expect("PrivateKey::from_bytes(1)");
         let s = sk.sign_message(b"x").expect("sign_message");
-        SighashSignature::new(&s, SigHash::InputsOutputs, &[])
+        SighashSignature::new(&s, SigHash::InputsOutputs, &[]).to_bytes().expect("SighashSignature::to_bytes")
     })
     .expect("C07 setup: cannot build a SighashSignature");
 
@@ -657,7 +658,7 @@ fn build(tier: Tier) -> Tables {
 
     let (alias_strings, alias_bases) = alias_strings(tier);
 
-    Tables { keys, n_core_keys, alias_strings, alias_bases, dyn_hashes, n_unlock_keys, hashes, wif_bases, addr_bases, wif_sub, addr_sub, len_strings, xs, pk_len_tags, sig }
+    Tables { keys, n_core_keys, alias_strings, alias_bases, dyn_hashes, n_unlock_keys, hashes, wif_bases, addr_bases, wif_sub, addr_sub, len_strings, xs, pk_len_tags, sig_bytes: sig }
 }
 
 /// Hash row `hi` of the addr-prefix-hash product: a fixed hash, or one that repeats the prefix byte.
@@ -1242,7 +1243,12 @@ pub fn spaces(tier: Tier) -> Vec<Space> {
             };
             acc.nontrivial_structural += 1;
             acc.traces += 1;
-            let res = call(acc, || addr.get_unlocking_script(&pk, &t.sig));
+            let Ok(Ok(sg)) = guard(|| SighashSignature::from_bytes(&t.sig_bytes, &[])) else {
+                // parsing signatures is C06's subject
+                acc.bump("unlock_case_skipped_signature_not_parsed", 1);
+                return;
+            };
+            let res = call(acc, || addr.get_unlocking_script(&pk, &sg));
             acc.outcome(&[3, expect as u8, res.code(), (prefix == 0) as u8]);
             match (expect, res) {
                 (true, Tri::Ok(_)) | (false, Tri::Err(_)) => {}
